@@ -66,7 +66,8 @@ static int child_status[MAXT + 1];       /* result of the child forked by thread
 static char child_note[MAXT + 1][200];
 static int call_ret[MAXT + 1][16];
 
-static void park(int st) { state[me] = st; sem_post(&parked); sem_wait(&go[me]); }
+static volatile int release_all;       /* set when a schedule turns out not to be executable: everybody runs freely from then on */
+static void park(int st) { state[me] = st; if (release_all) return; sem_post(&parked); sem_wait(&go[me]); }
 
 int pthread_mutex_lock(pthread_mutex_t *m)
 {
@@ -210,7 +211,16 @@ static int run_schedule(char *line, FILE *out, const char *logpath)
         if (a == 'f') fork_request[t] = 1;
         sem_post(&go[t]);
         struct timespec ts; clock_gettime(CLOCK_REALTIME, &ts); ts.tv_sec += 15;
-        if (sem_timedwait(&parked, &ts) != 0) { fprintf(out, "{\"hang\":%d,\"thread\":%d}\n", stepno, t); fflush(out); _exit(0); }
+        if (sem_timedwait(&parked, &ts) != 0) {
+            /* thread t did not reach a scheduling point. Either the code deadlocks, or it blocks on something another PARKED
+               thread holds (then the schedule is simply not executable under a cooperative scheduler). Decide by state:
+               let everybody run freely; only if the process still does not finish is it a deadlock. */
+            release_all = 1;
+            for (int i = 1; i <= nthreads; i++) for (int q = 0; q < 64; q++) sem_post(&go[i]);
+            int finished = 0;
+            for (int w = 0; w < 100 && !finished; w++) { usleep(100000); finished = 1; for (int i = 1; i <= nthreads; i++) if (state[i] != ST_DONE) finished = 0; }
+            fprintf(out, finished ? "{\"unschedulable\":%d,\"thread\":%d}\n" : "{\"hang\":%d,\"thread\":%d}\n", stepno, t); fflush(out); _exit(0);
+        }
         char got[256], exp[256]; project(got, sizeof got);
         snprintf(exp, sizeof exp, "%s:%d:%d", strcmp(expl, "-") ? expl : "", ecount, eowner);
         if (strcmp(got, exp)) {
